@@ -17,7 +17,7 @@ from symx.core import rv, frac, prove, model_value
 from pySDC.core.collocation import CollBase
 
 PID = 'C05'
-BOUNDS = {'quick': dict(M='1..5', families=6, quad_types=4, intervals=8), 'thorough': dict(M='1..8', families=6, quad_types=4, intervals=10)}
+BOUNDS = {'quick': dict(M='1..5', families=6, quad_types=4, intervals=13), 'thorough': dict(M='1..8', families=6, quad_types=4, intervals=15)}
 NODE_TYPES = ['LEGENDRE', 'EQUID', 'CHEBY-1', 'CHEBY-2', 'CHEBY-3', 'CHEBY-4']
 QUAD_TYPES = ['GAUSS', 'LOBATTO', 'RADAU-LEFT', 'RADAU-RIGHT']
 
@@ -36,13 +36,14 @@ def tasks(tier, seed):
     quick = tier == 'quick'
     rng = random.Random(seed)
     intervals = [(0.0, 1.0), (-3.0, -1.0), (1000.0, 1000.1), (-1.0, 7.0), (-1.0, 0.0), (-0.125, 0.0), (0.0, 0.001), (0.0, 1e-6)]  # (end points exactly zero included)
+    intervals += [(-0.7, 0.3), (1.1, 5.3), (-2.3, 0.6), (-0.3, 0.1)]  # ((tr - tl) + tl != tr in doubles: an end point obtained by shifting a [0, length] table is off by one ulp)
     for _ in range(3):
         a = rng.uniform(-5, 5)
         intervals.append((a, a + rng.uniform(0.01, 3)))
     for nt in NODE_TYPES:
         for qt in QUAD_TYPES:
             for M in (range(1, 6) if quick else range(1, 9)):
-                ivs = intervals if not quick else intervals[:8] + intervals[8:9]
+                ivs = intervals if not quick else intervals[:13]
                 if M > 5:  # (on intervals shorter than 1e-5 the qmat generator merges nodes closer than 1e-8 to an end point with it -- the defect recorded for large offsets; with M <= 5 all nodes stay clear of that)
                     ivs = [iv for iv in ivs if iv[1] - iv[0] >= 1e-5]
                 T.append(('coll', nt, qt, M, ivs))
